@@ -64,9 +64,12 @@ def main():
             print(out)
         results.append({"name": m["name"], "applied": True, "rc": rc,
                         "caught": rc == 1, "keys": keys})
-    if not only:
-        json.dump(results, open(os.path.join(VERIF, "tools", "mutants",
-                                             pid + ".result.json"), "w"), indent=1)
+    rp = os.path.join(VERIF, "tools", "mutants", pid + ".result.json")
+    if only and os.path.exists(rp):
+        # merge the single result into the recorded list
+        old = [r for r in json.load(open(rp)) if r.get("name") != only]
+        results = old + results
+    json.dump(results, open(rp, "w"), indent=1)
     if "--keep" not in args:
         subprocess.call(["git", "-C", "/repo", "worktree", "remove", "--force", wt])
         h = hashlib.sha1(wt.encode()).hexdigest()[:10]
